@@ -9,6 +9,8 @@ CONSTANTS
   F = 900
   Blocks = {}
   MaxCalls = 1000000
+  Execs = {}
+  Stateless = TRUE
 CONSTRAINT Hwm
-INVARIANTS LeaderIsOperator LeaderIgnoresOrderAndRepetition LeaderRankDependsOnSeedAndSize ChecklistShape HeartbeatBySeedOnly ChecklistDeterministic SeedDeterministic
+INVARIANTS LeaderIsOperator LeaderIgnoresOrderAndRepetition LeaderHistoryIndependent LeaderIdempotent LeaderRankDependsOnSeedAndSize ChecklistShape HeartbeatBySeedOnly ChecklistHistoryIndependent SeedHistoryIndependent
 POSTCONDITION Accepted
